@@ -225,6 +225,8 @@ pub fn block_on<F: std::future::Future>(f: F) -> F::Output {
   impl ArcWake for W {
     fn wake_by_ref(a: &Arc<Self>) {
       wake_thread(&a.0, a.1);
+      // a wake-up is a scheduling point: the woken thread may run before the waker's next statement
+      on_yield(9, 0);
     }
   }
   let (ctl, tid) = me().expect("block_on outside a managed thread");
